@@ -98,6 +98,8 @@ class Interp:
         self.spec_env_extra = {}
         self.hyp = []
         self.ext_returns = []
+        self.trace_base = 0        # clauses of a callee evaluated at a call site see only the events it emits
+        self.callsites = {}        # (callee, line) -> [reached, normal return feasible]
         self.dmap_keys = {}        # Ref -> key terms used on this path (for model concretisation)
 
     # ================================================================ fresh
@@ -459,6 +461,9 @@ class Interp:
             r = z3.LShR(x, y)
         return VInt(z3.BV2Int(r, True))
 
+    def cur_trace(self):
+        return self.trace[self.trace_base:]
+
     def note(self, s):
         if s not in self.notes:
             self.notes.append(s)
@@ -816,7 +821,7 @@ class Interp:
             if i == len(n.values) - 1:
                 return v
             t = self.truth(v)
-            if self.spec_depth and all(_is_pure_bool(x) for x in n.values):
+            if self.spec_depth:
                 # in specs: no forking on pure boolean connectives; later operands are evaluated under the
                 # hypothesis that the earlier ones did not short-circuit
                 acc = [t]
@@ -1311,6 +1316,12 @@ class Interp:
         """callback of unknown code: recorded in the trace; the enclosing contract's rely decides what it may change"""
         if self.spec_depth:
             raise SpecError("opaque call in clause")
+        # a partial built by mk_partial(fn, kw) called without further arguments is a call of fn(**kw)
+        t = z3.simplify(fn.t)
+        mk, empty = V.fn_terms()
+        if z3.is_app(t) and t.decl().name() == "mk_partial" and not kwargs:
+            fn = VOpaque("Fn", t.arg(0))
+            kwargs = {"**": VOpaque("Kwargs", t.arg(1))}
         ev = TraceEv("callback", {"fn": fn, "args": tuple(args), "kwargs": dict(kwargs)})
         self.trace.append(ev)
         h = self.cset.helpers.get("on_opaque_call")
@@ -1476,6 +1487,12 @@ class Interp:
                 self.frames.pop()
         if self.spec_depth and not fc.pure:
             raise SpecError("call of non-pure %s in a clause" % fc.key)
+        th = getattr(self.cset, "trace_helpers", None)
+        if th and fc.emits is None:
+            used = sorted({h for h in th for _, t in fc.ensures if isinstance(t, str) and (h + "(") in t})
+            if used:
+                raise SpecError("%s is called through its contract, whose postcondition uses trace helper(s) %s, "
+                                "but the contract has no `emits`" % (fc.key, used))
         site = "call:%s" % fc.key
         # 1. preconditions are obligations of the caller
         self.frames.append(Frame(fc, dict(env)))
@@ -1523,9 +1540,13 @@ class Interp:
                 outcomes = ["return"] + list(fc.raises.keys())
                 i = self.ctx.fork(len(outcomes)) if len(outcomes) > 1 else 0
                 saved_res, saved_old, saved_tl = self.result, self.old_heap, self.old_trace_len
+                saved_tb = self.trace_base
                 self.old_heap, self.old_trace_len = snap, trace_len
+                self.trace_base = trace_len
+                cs = self.callsites.setdefault((fc.key, getattr(node, "lineno", None)), [0, 0])
                 try:
                     if i == 0:
+                        cs[0] += 1
                         res = self.fresh(fc.result, self.fresh_name("ret_" + fc.key)) if fc.result is not None \
                             else NONE
                         self.result = res
@@ -1533,10 +1554,19 @@ class Interp:
                             self.ext_returns.append((fc.key, getattr(getattr(recv, "ref", None), "name", None), res))
                         if fc.emits:
                             fc.emits(self, env, res)
+                        import os as _os
+                        dbg = _os.environ.get("PYVC_TRACE_ASSUME")
                         for label, clause in fc.ensures:
                             self.ctx.assume(self.spec_bool(clause))
+                            if dbg and not self.ctx._feasible(z3.BoolVal(True)):
+                                print("INFEASIBLE after assuming %s:%s at line %s" % (fc.key, label,
+                                                                                      getattr(node, "lineno", None)))
+                                dbg = None
                         for label, clause in cinv:
                             self.ctx.assume(self.spec_bool(clause))
+                        if not self.ctx._feasible(z3.BoolVal(True)):
+                            raise PathAbort("callee %s cannot return normally here" % fc.key)
+                        cs[1] += 1
                         return res
                     exc = outcomes[i]
                     cond = fc.raises[exc]
@@ -1556,6 +1586,7 @@ class Interp:
                     self.raise_(exc if exc != "*" else "Exception")
                 finally:
                     self.result, self.old_heap, self.old_trace_len = saved_res, saved_old, saved_tl
+                    self.trace_base = saved_tb
             finally:
                 self.snapshots.remove(snap)
         finally:
